@@ -289,8 +289,10 @@ def minimum(ctx, g):
         ctx.ob("T4-all-seeds", b.name, "seed-loop", "ok", "remaining seeds are the inclusive range 2..=size()")
     # replacement under compare_codes(trav, best) < 0
     rep_ok = False
+    ret_local = strip(b.local_origin(0))
+    best_l = ret_local[1] if ret_local[0] == "local" else None
     for bi, si, s in b.assigns():
-        if s["place"]["l"] in b.names.get("best", []) and not s["place"]["p"] and bi != 0:
+        if s["place"]["l"] == best_l and not s["place"]["p"] and bi != 0 and (loop_containing(b, bi) is not None):
             for a in b.facts_at(bi):
                 a = atom_norm(a, g)
                 if a[0] == "rel" and a[1] == "Lt" and a[3] == ("int", 0) and a[2][0] == "call" and a[2][1].endswith("compare_codes"):
